@@ -4,6 +4,7 @@ import (
 	"io"
 	"math/rand"
 	"net/http"
+	"strings"
 
 	"github.com/flamego/flamego"
 )
@@ -84,8 +85,10 @@ func genC13(rng *rand.Rand, n int, tier string, emit func(*Sx)) {
 				if rng.Intn(4) == 0 {
 					acc = rng.Intn(len(b) + 1)
 				}
-				if rng.Intn(4) == 0 { // through io.WriteString (uses a WriteString method when the writer has one)
+				if r4 := rng.Intn(6); r4 == 0 { // through io.WriteString (uses a WriteString method when the writer has one)
 					ops = append(ops, T("ws", X(string(b)), I(acc)))
+				} else if r4 == 1 && len(b) > 0 { // through io.Copy (uses ReadFrom when the writer has one)
+					ops = append(ops, T("cp", X(string(b)), I(len(b))))
 				} else {
 					ops = append(ops, T("w", X(string(b)), I(acc)))
 				}
@@ -136,6 +139,9 @@ func runC13(in *Sx) *Sx {
 			case "ws":
 				spy.acc = a[1].Int()
 				_, _ = io.WriteString(w, a[0].Bytes())
+			case "cp": // io.Copy uses a ReadFrom method when the writer has one
+				spy.acc = a[1].Int()
+				_, _ = io.Copy(w, struct{ io.Reader }{strings.NewReader(a[0].Bytes())}) // hide WriteTo: the destination decides
 			case "fl":
 				w.Flush()
 			case "bf":
